@@ -139,11 +139,14 @@ Proof.
   unfold read_bytes_with_size, read_fixed_size. rewrite <- app_assoc.
   destruct (read_fixed_roundtrip (le_enc (lpt_size l) (Z.to_N (Z.of_nat (length bs)))) (bs ++ rest) es Hff) as (es1 & Hff1 & H).
   rewrite Hlen in H.
-  destruct l; try congruence; rewrite H, le_dec_enc by exact Hlt; rewrite Z2N.id, to_i64_small by lia.
-  all: destruct (Z.eqb_spec (Z.of_nat (length bs)) 0) as [E|E];
-    [ assert (bs = []) by (destruct bs; [reflexivity | cbn in E; lia]); subst bs; cbn [app];
+  assert (Hfit : (Z.to_N MaxInt64 <? Z.to_N (Z.of_nat (length bs)))%N = false).
+  { apply N.ltb_ge. unfold MaxInt64 in *. lia. }
+  destruct l; try congruence; rewrite H, le_dec_enc by exact Hlt; cbv zeta; rewrite Hfit.
+  all: destruct (N.eqb_spec (Z.to_N (Z.of_nat (length bs))) 0) as [E|E];
+    [ assert (bs = []) by (destruct bs; [reflexivity | cbn [length] in E; lia]); subst bs; cbn [app];
       exists es1; eexists; split; [assumption | reflexivity]
-    | destruct (read_bytes_roundtrip bs rest es1 Hff1) as (es2 & c2 & Hff2 & ->);
+    | rewrite Z2N.id by lia;
+      destruct (read_bytes_roundtrip bs rest es1 Hff1) as (es2 & c2 & Hff2 & ->);
       exists es2; eexists; split; [assumption | reflexivity] ].
 Qed.
 
